@@ -1,6 +1,7 @@
 package main
 
 import (
+	"bytes"
 	"fmt"
 	"sort"
 	"strconv"
@@ -27,6 +28,7 @@ var chkSim = pipeCheck{"R_sim_violation", "where_not (fun c => sim_ok (snd c)) c
 var chkDisc = pipeCheck{"R_discipline_mismatch", "where_not (fun c => discipline_ok (snd c)) cases", "mismatch", "hypothesis of model_regalloc_preserves_semantics not met by an instruction the real constructors built: a virtual register it reads or writes is not among its operands"}
 var chkBind = pipeCheck{"R_bind_violation", "where_not (fun c => bind_ok regs (snd c)) cases", "violation", "bound code is not the substitution instance: virtual register remains, width view changed, or an author-named register was altered"}
 var chkCFG = pipeCheck{"R_cfg_violation", "where_not cfg_obs_ok cases", "violation", "the successors/predecessors the pipeline computed are not the control-flow graph of the function (C09 rules on the nodes after the label clean-ups)"}
+var chkZext = pipeCheck{"R_zext_violation", "where_not (fun c => zext_ok regs (snd c)) cases", "violation", "after the 32-bit widening pass an instruction is not the widening of the instruction before it: a 32-bit general-purpose destination was left 32 bits wide (no 64-bit view and no refusal), or another register was put in its place"}
 var chkBP = pipeCheck{"R_bp_violation", "where_not (fun c => bp_ok regs (fattrs (fst c)) (snd c)) cases", "violation", "function writes the base pointer but gets no frame (or NOFRAME is not refused)"}
 
 // emitPipelineCases runs every program through the staged real passes and writes sharded case files.
@@ -304,6 +306,15 @@ func pipelineCorpus() []*Prog {
 		add(x86.MOVQ(lo, operand.Mem{Base: reg.RSP, Disp: 8}))
 		add(x86.MULXQ(y, lo2, hi2))
 		add(x86.MOVQ(hi2, operand.Mem{Base: reg.RSP, Disp: 16}))
+		add(x86.RET())
+	})
+	mk("a 32-bit write to a register drawn as a plain virtual register of the general-purpose kind (no 64-bit view to widen to)", func(c *reg.Collection, add func(*ir.Instruction, error), lbl func(string)) {
+		v := c.VirtualRegister(reg.KindGP, reg.S32)
+		w := c.GP64()
+		add(x86.MOVQ(operand.U32(9), w))
+		add(&ir.Instruction{Opcode: "MOVL", Operands: []operand.Op{operand.U32(1), v}, Inputs: nil, Outputs: []operand.Op{v}}, nil)
+		add(&ir.Instruction{Opcode: "MOVL", Operands: []operand.Op{v, operand.Mem{Base: reg.RSP, Disp: 8}}, Inputs: []operand.Op{v, operand.Mem{Base: reg.RSP, Disp: 8}}, Outputs: nil}, nil)
+		add(x86.MOVQ(w, operand.Mem{Base: reg.RSP, Disp: 16}))
 		add(x86.RET())
 	})
 	mk("values dying at an exchange and at a division (two explicit / two implicit outputs)", func(c *reg.Collection, add func(*ir.Instruction, error), lbl func(string)) {
@@ -792,6 +803,66 @@ func bpListedFile(o *Out) {
 				o.Plan.GoViolations = append(o.Plan.GoViolations, GoViolation{Key: "bp:listed-file", Desc: fmt.Sprintf("case %d: %s: `%s` writes the base pointer in the block %q, which declares no frame", idx, desc, strings.TrimSpace(ln), cur), Replay: map[string]any{"functions": names, "text": string(out)}})
 				break
 			}
+		}
+	}
+}
+
+// bpMainFlow: the flow of a real generator (build.Main with the compile pass followed by the two printers) on
+// files in which one function must be refused (NOFRAME and writes the base pointer) next to functions that
+// write it legitimately: the status is non-zero and nothing is written; without the refused function the
+// status is zero and every block that writes BP declares a frame.
+func bpMainFlow(o *Out) {
+	for variant := 0; variant < 4; variant++ {
+		ctx := build.NewContext()
+		order := []string{"Leaf", "Sum", "Dot"}
+		switch variant {
+		case 1:
+			order = []string{"Sum", "Leaf", "Dot"}
+		case 2:
+			order = []string{"Sum", "Dot", "Leaf"}
+		case 3:
+			order = []string{"Sum", "Dot"}
+		}
+		for _, n := range order {
+			ctx.Function(n)
+			ctx.Attributes(attr.NOSPLIT)
+			if n == "Leaf" {
+				ctx.Attributes(attr.NOSPLIT | attr.NOFRAME)
+			}
+			ctx.SignatureExpr("func(x uint64) uint64")
+			v := ctx.GP64()
+			ctx.Load(ctx.Param("x"), v)
+			ctx.MOVQ(v, reg.RBP)
+			ctx.ADDQ(reg.RBP, v)
+			ctx.Store(v, ctx.ReturnIndex(0))
+			ctx.RET()
+		}
+		var asm, stub, diag bytes.Buffer
+		pc := printer.Config{Name: "avo", Pkg: "p"}
+		cfg := &build.Config{ErrOut: &diag, MaxErrors: 10, Passes: []pass.Interface{pass.Compile, &pass.Output{Writer: nopWC{&asm}, Printer: printer.NewGoAsm(pc)}, &pass.Output{Writer: nopWC{&stub}, Printer: printer.NewStubs(pc)}}}
+		status := build.Main(cfg, ctx)
+		desc := fmt.Sprintf("build.Main over the functions %v, each writing BP (Leaf is NOFRAME)", order)
+		idx := o.AddCase(Case{Key: "bp:main-flow", Desc: desc, Input: map[string]any{"functions": order}, Nontrivial: true})
+		if variant < 3 {
+			if status == 0 || asm.Len() != 0 || stub.Len() != 0 {
+				o.Plan.GoViolations = append(o.Plan.GoViolations, GoViolation{Key: "bp:main-flow", Desc: fmt.Sprintf("case %d: %s: status %d, %d bytes of assembly and %d bytes of stubs written although Leaf must be refused (diagnostics: %q)", idx, desc, status, asm.Len(), stub.Len(), firstLine(diag.String())), Replay: map[string]any{"functions": order, "assembly": asm.String()}})
+			}
+			continue
+		}
+		frame, cur, bad := int64(-1), "", status != 0
+		for _, ln := range strings.Split(asm.String(), "\n") {
+			if strings.HasPrefix(ln, "TEXT ") {
+				cur, frame = ln, -1
+				if m := textFrameRe.FindStringSubmatch(ln); m != nil {
+					frame, _ = strconv.ParseInt(m[1], 10, 64)
+				}
+			}
+			if strings.HasPrefix(ln, "\t") && strings.HasSuffix(strings.TrimSpace(ln), ", BP") && frame <= 0 {
+				bad = true
+			}
+		}
+		if bad || cur == "" {
+			o.Plan.GoViolations = append(o.Plan.GoViolations, GoViolation{Key: "bp:main-flow", Desc: fmt.Sprintf("case %d: %s: status %d; a block that writes BP declares no frame, or nothing was written", idx, desc, status), Replay: map[string]any{"functions": order, "assembly": asm.String()}})
 		}
 	}
 }
